@@ -142,6 +142,8 @@ Psf1(name, m) ==
       [] name = "quad" -> [k \in 1..m |-> ((k - 1) * (k - 1) + 3 * (k - 1) + 1) % 7]
       [] name = "sym"  -> [k \in 1..m |-> LET cc == Ctr(m) + 1  p == 2 * cc - k
                                           IN IF p >= 1 /\ p <= m THEN 1 + Ctr(m) - IAbs(k - cc) ELSE 0]
+      \* one-sided: 3, 2, 1 on the centre tap and the two taps after it, zeros elsewhere (used by TestProblems, legacy form)
+      [] name = "oneside" -> [k \in 1..m |-> LET d == k - (Ctr(m) + 1) IN IF d >= 0 /\ d <= 2 THEN 3 - d ELSE 0]
 Flip1(P) == [k \in 1..Len(P) |-> P[Len(P) + 1 - k]]
 
 \* ramp: all taps distinct;  quad: irregular;  sym: outer product of the symmetric 1-D PSF with the ramp
